@@ -61,12 +61,19 @@ def gen(seed, tier):
             'classes': [r.choice(('Cell', 'Cell', 'Merge'))
                         for _ in range(ncell)],
             'explicit': [r.random() < 0.3 for _ in range(nclient)],
-            'sched': sc, 'tick': 0.37, 'tier': tier}
+            'sched': sc, 'tick': r.choice((0.37, 0.37, 1e-7, 45.0)),
+            'tier': tier}
     if arm == 'conn':
         case['scripts'] = [
             mvcc.gen_script(r, ncell, r.randint(2, 6), write_p=0.7,
                             rc_p=0.15, abort_p=0.05, misc_p=0.08)
             for _ in range(nclient)]
+        if r.random() < 0.3 and kind == 'file':
+            # a client undoes one of its own commits while others hold
+            # copies derived from the undone revision
+            sc = r.choice(case['scripts'])
+            sc.insert(r.randrange(1, len(sc) + 1),
+                      {'t': 'undo', 'k': -1 - r.randrange(2)})
     else:
         scripts = []
         for _ in range(nclient):
